@@ -247,6 +247,7 @@ pub fn run_reader<T: EbmlSpecification<T> + EbmlTag<T> + Clone>(
         };
         ev["ev"] = json!(if call == Call::Next { "next" } else { "recover" });
         ev["peak"] = nsat(peak_now);
+        if ev["res"] == "none" && !it.get_ref().delivered_all() { ev["pause"] = json!(true); }
         it.get_mut().end_of_call();
         let panicked = ev["res"] == "panic";
         if !panicked { ev["st"] = state_json(&it); }
